@@ -38,6 +38,7 @@ uint8_t *vf_malloc(uint64_t n) { return malloc(n ? n : 1); }
 void vf_free_(uint8_t *p) { free(p); }
 uint8_t *vf_realloc_(uint8_t *p, uint64_t n) { return realloc(p, n ? n : 1); }
 void vf_heap_reset(void) {}
+void vf_havoc(uint8_t *p, uint64_t n) { for (uint64_t i = 0; i < n; ++i) p[i] = (uint8_t)(i * 37u + 11u); }
 #else
 extern void vf_init_globals(void);
 #endif
